@@ -22,7 +22,7 @@ use std::thread;
 #[cfg(not(roughenough_verif))]
 use std::time::SystemTime;
 #[cfg(roughenough_verif)]
-use verif_std::{thread, time::SystemTime};
+use verif_std::{thread, time::*, *};
 
 use byteorder::{LittleEndian, WriteBytesExt};
 use data_encoding::{Encoding, HEXLOWER_PERMISSIVE};
